@@ -7,6 +7,7 @@ import (
 
 	"github.com/goccy/go-json/internal/errors"
 	"github.com/goccy/go-json/internal/runtime"
+	"github.com/goccy/go-json/internal/verifhook"
 )
 
 var (
@@ -328,6 +329,7 @@ func (d *sliceDecoder) DecodePath(ctx *RuntimeContext, cursor, depth int64) ([][
 			}
 			idx := 0
 			for {
+				verifhook.Point(7, unsafe.Pointer(&ctx.Option.Path.node), false)
 				child, found, err := ctx.Option.Path.node.Index(idx)
 				if err != nil {
 					return nil, 0, err
@@ -335,11 +337,13 @@ func (d *sliceDecoder) DecodePath(ctx *RuntimeContext, cursor, depth int64) ([][
 				if found {
 					if child != nil {
 						oldPath := ctx.Option.Path.node
+						verifhook.Point(8, unsafe.Pointer(&ctx.Option.Path.node), true)
 						ctx.Option.Path.node = child
 						paths, c, err := d.valueDecoder.DecodePath(ctx, cursor, depth)
 						if err != nil {
 							return nil, 0, err
 						}
+						verifhook.Point(8, unsafe.Pointer(&ctx.Option.Path.node), true)
 						ctx.Option.Path.node = oldPath
 						ret = append(ret, paths...)
 						cursor = c
